@@ -34,3 +34,10 @@ Theorem C20_walk_on_ids : forall (a : marena) (r : valuation var val), Inv a -> 
 Proof. exact eval_i_refines. Qed.
 Print Assumptions C20_kind_view.
 Print Assumptions C20_walk_on_ids.
+
+(** the diagram rebuilt by walking the views recursively is the diagram of the id; any fold over the views is the fold over it *)
+From PV Require Import Interner.KindWalk.
+Theorem C20_walk_rebuilds_the_diagram : forall (a : marena) (x : nid), Inv a -> valid (List.length a) x ->
+  m_expand_i a x = Some (unfold a x).
+Proof. exact m_expand_i_unfold. Qed.
+Print Assumptions C20_walk_rebuilds_the_diagram.
